@@ -14,7 +14,7 @@
 #elif defined( SPACE_CONV )
 #define VERIF_K 4
 #define VERIF_GROUPS ( T::G_CORE | T::G_CONV | T::G_CONV3 | T::G_REP | T::G_HOLE | T::G_REMATCH )
-#define VERIF_FAMS 1
+#define VERIF_FAMS ( 1 | 2 )
 #define VERIF_CTLS 1
 #elif defined( SPACE_EXC )
 #define VERIF_K 4
@@ -58,7 +58,7 @@
 #elif defined( SPACE_SCOPES )
 #define VERIF_K 4
 #define VERIF_GROUPS ( T::G_CORE | T::G_ACT | T::G_STATE )
-#define VERIF_FAMS ( ( 1 << 12 ) | ( 1 << 13 ) | ( 1 << 14 ) )
+#define VERIF_FAMS ( ( 1 << 12 ) | ( 1 << 13 ) | ( 1 << 14 ) | ( 1 << 16 ) )
 #define VERIF_CTLS 8
 #elif defined( SPACE_ATOMS )
 // library atoms (ascii convenience + contrib) under every one-level context, on guard-paged inputs; -DATOMS_LAZY=0|1
@@ -197,7 +197,7 @@ struct Space
          p.Lmin = p.L;
          p.sigma = "x";
          p.need_hole = true;
-         p.cfgs = cfg_product( { 0 }, { 0 }, { 1 }, { 1, 0 } );
+         p.cfgs = cfg_product( { 0, 1 }, { 0 }, { 1 }, { 1, 0 } );  // with and without actions on every rule (who holds the rewind guard changes)
          phases.push_back( p );
       }
       {
@@ -398,7 +398,7 @@ struct Space
          p.L = thorough ? 3 : 2;
          p.sigma = "ab";
          p.flat_inner = false;
-         p.cfgs = cfg_product( { 12, 13, 14 }, { 3 }, { 1, 0 }, { 1 } );
+         p.cfgs = cfg_product( { 12, 13, 14, 16 }, { 3 }, { 1, 0 }, { 1 } );
          phases.push_back( p );
       }
 #elif defined( SPACE_ATOMS )
